@@ -9,7 +9,7 @@ from props.c12 import workdir
 
 THEOREMS = ["IgVerif.C10.c10_vfuncs_spec", "IgVerif.C10.c10_abstract_spec", "IgVerif.C10.c10_no_ctor_for_abstract",
             "IgVerif.C10.c10_declared_dtor_decides", "IgVerif.C10.c10_deleted_never_constructible", "IgVerif.C10.c10_polymorphic_spec",
-            "IgVerif.C10.c10_move_deletes_copy", "IgVerif.C10.c10_implicit_copy"]
+            "IgVerif.C10.c10_move_deletes_copy", "IgVerif.C10.c10_implicit_copy", "IgVerif.C10.c10_access_monotone"]
 PARTIAL = [("c10_abstract_virtual_bases", "the final-overrider characterisation is proved for hierarchies without virtual base classes; with a shared virtual base the "
             "code (and the model) keep one entry per inheritance path, which is a known finding (diamond judged abstract)"),
            ("c10_constructible_spec", "is_default_constructible / is_copy_constructible / is_destructible are modelled and tied to the real code; their agreement with "
